@@ -5,6 +5,9 @@ retrieval is backed by its own item.
 import FsVerif.Proofs.PosExtra
 import FsVerif.Proofs.BufExtra
 import FsVerif.Proofs.Fleet
+import FsVerif.Proofs.SlotCons
+import FsVerif.Proofs.CBeltCons
+import FsVerif.Props.C12
 namespace FsVerif.Props.C02
 open FsVerif PosStore
 
@@ -89,5 +92,37 @@ theorem fleet_binding {s : FleetStore} (h : FleetStore.ReachD s) :
     s.b.resEv.Perm s.b.getRes ∧ s.b.resItems.length = s.b.getRes.length ∧ (∀ e ∈ s.b.resItems, e ∈ s.b.ready) := by
   have hi := (FleetStore.reachD_kt h).core
   exact ⟨hi.bindEv, by have := hi.bindLen; have := hi.bindEv.length_eq; omega, BufStore.resItems_sub hi.toPre⟩
+
+/-! ### slotted conveyor (slotted_belt_store.py through edges/slotted_conveyor.py): conservation at every reachable state -
+every API call and every kernel event of the travel processes.  The overflow guard of `move_to_ready_items`, the only place
+where the code could drop an item, is dead by the capacity invariant. -/
+
+theorem slot_conservation (cfg : SlotCfg) (ops : List SlotBelt.Op) :
+    let s := SlotBelt.run (SlotBelt.init cfg) ops
+    (s.gotLog.map (·.id) ++ (s.items ++ s.ready).map (·.item.id)).Perm (s.entered.map (·.item.id)) :=
+  SlotBelt.run_cons ops _ (SlotBelt.init_inv cfg) (SlotBelt.init_cons cfg)
+
+/-- non-vacuity: two items put, one taken, one still travelling -/
+def demoSlot : List SlotBelt.Op :=
+  [.reservePut 0, .put 0 0 { id := 5 }, .ev, .adv 1, .ev, .ev, .reservePut 0, .put 0 1 { id := 6 }, .ev, .adv 1, .ev, .ev, .ev, .reserveGet 1, .get 1 2]
+
+example : ((SlotBelt.run (SlotBelt.init { cap := 2, delay := 1 }) demoSlot).gotLog.map (·.id),
+           ((SlotBelt.run (SlotBelt.init { cap := 2, delay := 1 }) demoSlot).items ++ (SlotBelt.run (SlotBelt.init { cap := 2, delay := 1 }) demoSlot).ready).map (·.item.id),
+           (SlotBelt.run (SlotBelt.init { cap := 2, delay := 1 }) demoSlot).entered.map (·.item.id)) = ([5], [6], [5, 6]) := by decide +kernel
+
+/-! ### continuous conveyor (belt_store.py through edges/continuous_conveyor.py): conservation at every reachable state - every
+API call and every kernel event (travel timers, interrupts, resumes, the state machine), both accumulation modes.  Interrupts and
+resumes rewrite an item's travel bookkeeping, never its identity; the state machine's bookkeeping never touches the contents. -/
+
+theorem cbelt_conservation (cfg : CCfg) (ops : List CBelt.Op) :
+    let s := CBelt.run (CBelt.init cfg) ops
+    (s.gotLog.map (·.id) ++ (s.items.map (·.item.id) ++ s.ready.map (·.item.id))).Perm (s.entered.map (·.item.id)) :=
+  (CBelt.run_rc ops _ (CBelt.init_rc cfg)).cons
+
+/-- non-vacuity on the stall scenario of Props/C12.demoC (item 5 taken after a long stall, item 6 interrupted and resumed) -/
+example : ((CBelt.run (CBelt.init { cap := 3, p1 := 2, acc := false }) C12.demoC).gotLog.map (·.id),
+           (CBelt.run (CBelt.init { cap := 3, p1 := 2, acc := false }) C12.demoC).items.map (·.item.id) ++
+             (CBelt.run (CBelt.init { cap := 3, p1 := 2, acc := false }) C12.demoC).ready.map (·.item.id),
+           (CBelt.run (CBelt.init { cap := 3, p1 := 2, acc := false }) C12.demoC).entered.map (·.item.id)) = ([5], [6], [5, 6]) := by decide +kernel
 
 end FsVerif.Props.C02
